@@ -35,12 +35,17 @@ def _poll_thread_probe(rep, n_hist, seed):
                 except Exception:  # refusals are fine (C01 is about calls that RETURN normally)
                     pass
         probe = "77;255;3;0;6;0\n"
-        deadline = time.time() + 5
-        while gw.tasks.queue and th.is_alive() and time.time() < deadline:
+        # wait for the real poll thread by progress, not by wall clock (a loaded machine must not look like a dead pump):
+        # give up only when the queue length has not changed for 10 s
+        last, since = len(gw.tasks.queue), time.time()
+        while gw.tasks.queue and th.is_alive() and time.time() - since < 10:
+            if len(gw.tasks.queue) != last:
+                last, since = len(gw.tasks.queue), time.time()
             time.sleep(0.01)
         before = len(tr.log)
         gw.tasks.add_job(gw.logic, probe)
         answered = False
+        deadline = time.time() + 20
         while time.time() < deadline:
             if any(x.startswith("77;255;3;0;6;") for x in tr.log[before:]):
                 answered = True
